@@ -16,7 +16,7 @@ def run(ctx):
     ctx.assumptions += [
         "error table of 4 errors with register bits (0,1,1,2) - class sharing and the generic bit - (5 errors incl. bit 7 in the walks), history depth 2 (3 in the walks); set with and without manufacturer bytes, clear, reset silent/loud, count, get, reads of 1001h/1003h, write of 0/1 to 1003h:0, 1014h set invalid/valid/other identifier, NMT PRE-OP/OP/STOPPED",
         "the reference derives register and count from the set of active errors (the property's definition); the C code's per-class counters are compared with it at every step (register change observed as storage change of 1001h, count via COEmcyCnt)",
-        "error numbers >= CO_EMCY_N and reads of history sub-indices above the fill level are not generated / not asserted; 1014h with another identifier while invalid is not asserted",
+        "configuration C15W: a table of 32 errors (CO_EMCY_N), letters on the identifiers 0, 8, 16, 24, 31 (byte boundaries of the error-status storage), history depth 1", "error numbers >= CO_EMCY_N and reads of history sub-indices above the fill level are not generated / not asserted; 1014h with another identifier while invalid is not asserted",
     ]
     ctx.mc("MCEmcy", "C15_mc.cfg")
     behs = ctx.gen_edges("MCEmcy", "C15_genq.cfg" if q else "C15_gen.cfg", timeout=2500)
@@ -30,5 +30,9 @@ def run(ctx):
     ctx.mc("MCEmcy", "C15H_mc.cfg")
     bh = ctx.gen_edges("MCEmcy", "C15H_gen.cfg", timeout=2500)
     ctx.replay(common.thin(bh, 6000, ctx.seed) if q else bh, pre, observe, ordered=True, label="edges_high_ids")
+    # the whole table of CO_EMCY_N = 32 errors: identifiers at the byte boundaries of the error-status storage, across resets
+    ctx.mc("MCEmcy", "C15W_mc.cfg")
+    bw = ctx.gen_edges("MCEmcy", "C15W_gen.cfg", timeout=2500)
+    ctx.replay(common.thin(bw, 5000, ctx.seed) if q else bw, pre, observe, ordered=True, label="edges_table32")
     # EMCY identifier 80h + node id, 1014h with the node-id flag: the same model with the largest node id
     node_check.node_id_variant(ctx, "MCEmcy", "C15", pre, observe, True, (100, 4000), 45, 2500)
